@@ -94,6 +94,8 @@ PRE = [
     "(not (and (p ?x) (not (or (b) (not (q ?y ?x))))))",                        # 23 negated compound
     "(and (forall (?z - s) (p ?z)) (exists (?z - t) (and (not (p ?z)) (not (= ?z ?x)))))",   # 24 one variable name, two types (subtype first)
     "(and (exists (?z - t) (not (p ?z))) (forall (?z - s) (or (p ?z) (b))))",                # 25 the same, supertype first
+    "(and (> (n) (- 1.5)) (< (- 3) (m ?x)))",                                   # 26 unary minus of a decimal / of an integer constant
+    "(>= (+ (n) (- 0.5)) (- (m ?x) (- 1)))",                                    # 27 the same inside arithmetic
 ]
 EFF = [
     "(and (b) (not (p ?x)))",                                                   # 0
@@ -292,7 +294,7 @@ def _rows(n, seed=0):
     return out
 
 
-GROUPS = [[0, 1], [2, 3], [4, 5], [6, 7], [8, 9], [10, 11], [12, 13], [14, 22], [15, 16], [17, 18], [20], [21, 23], [24, 25]]
+GROUPS = [[0, 1], [2, 3], [4, 5], [6, 7], [8, 9], [10, 11], [12, 13], [14, 22], [15, 16], [17, 18], [20], [21, 23], [24, 25], [26, 27]]
 # texts on which the readers are known to disagree (one shard each, see known_findings)
 FINDINGS = {
     "undef-init": dict(pre=[0, 6], effs=[0, 4], rows=[dict(r, init=2) for r in _rows(3)]),                  # functions without (= ...) in :init
